@@ -104,6 +104,14 @@ class Adapter(EnvAdapter):
                 # the registered easy version: 7 scrambles, time limit 20
                 _scr("partly_scrambled_v0", 3, 20, 7, 4, 23, mix, via="make:RubiksCube-partly-scrambled-v0",
                      probe_every=3),
+                # the registered easy version with the time limit overridden through jumanji.make (its registration carries
+                # a time limit of its own: the caller's value wins), below and above the registered 20
+                _scr("partly_make_t3", 3, 3, 7, 3, 6, ["random", "solve"], via="make:RubiksCube-partly-scrambled-v0",
+                     make_kwargs=dict(time_limit=3), probe_every=0, props=["C01", "C03", "C11", "C12"]),
+                _scr("partly_make_t33", 3, 33, 7, 1, 36, ["random"], via="make:RubiksCube-partly-scrambled-v0",
+                     make_kwargs=dict(time_limit=33), probe_every=0, props=["C01", "C03", "C11", "C12"]),
+                _scr("v0_make_t5", 3, 5, 100, 1, 8, ["random"], via="make:RubiksCube-v0",
+                     make_kwargs=dict(time_limit=5), probe_every=0, props=["C01", "C03", "C11", "C12"]),
                 _scr("n2_t3_s1", 2, 3, 1, 6, 6, mix),
                 _scr("n2_t1_s0", 2, 1, 0, 4, 4, ["random"]),
                 # solved exactly at the time limit (both end reasons on the same step) / one step before it
@@ -133,6 +141,11 @@ class Adapter(EnvAdapter):
             _scr("v0", 3, 200, 100, 6, 40, mix, via="make:RubiksCube-v0", probe_every=2),
             _scr("partly_scrambled_v0", 3, 20, 7, 40, 23, mix, via="make:RubiksCube-partly-scrambled-v0"),
         ]
+        for t in (1, 2, 3, 7, 19, 21, 64):
+            out.append(_scr(f"partly_make_t{t}", 3, t, 7, 2, t + 3, ["random", "solve"], via="make:RubiksCube-partly-scrambled-v0",
+                            make_kwargs=dict(time_limit=t), probe_every=0, props=["C01", "C03", "C11", "C12"]))
+            out.append(_scr(f"v0_make_t{t}", 3, t, 100, 1, t + 3, ["random"], via="make:RubiksCube-v0",
+                            make_kwargs=dict(time_limit=t), probe_every=0, props=["C01", "C03", "C11", "C12"]))
         for n in (2, 3, 4, 5, 6, 7):
             pe = 1 if n < 4 else 3
             out += [
@@ -172,7 +185,7 @@ class Adapter(EnvAdapter):
             if via == "default":
                 env = RubiksCube()
             elif via.startswith("make:"):
-                env = jumanji.make(via[5:])
+                env = jumanji.make(via[5:], **cfg.get("make_kwargs", {}))     # keyword arguments override the registered ones
             else:
                 env = RubiksCube(generator=ScramblingGenerator(cube_size=n, num_scrambles_on_reset=c["num_scrambles"]),
                                  time_limit=c["time_limit"])
